@@ -802,6 +802,10 @@ TARGETS = [
     tgt("sql_method", ["a", "Dot", "f", "LParen", "b", "Comma", "c", "RParen", ("Dot", "Add"), "d"], "`a.f(b, c).d`, `a.f(b, c) + d`: a call inside a member chain"),
     tgt("sql_method2", ["a", "Dot", "f", "LParen", "b", "RParen", "Dot", "g", "LParen", "c", "Comma", "d", "RParen"], "`a.f(b).g(c, d)`"),
     tgt("sql_cast", ["int", "LParen", "a", "Add", "b", "RParen", "Multiply", "string", "LParen", "c", "RParen"], "`int(a + b) * string(c)`: a type constructor standing alone becomes a cast"),
+    tgt("sql_cast_path", ["string", "LParen", "a", "Dot", "b", "Dot", "c", "RParen", "EqualEqual", "$"],
+        "`string(a.b.c) == '..'`: the cast of a field path applies to the path, not to its last field name"),
+    tgt("sql_cast_index", ["int", "LParen", "a", "LBracket", "b", "RBracket", "RParen", "Add", "uint", "LParen", "f", "LParen", "c", "RParen", "Dot", "d", "RParen"], "`int(a[b]) + uint(f(c).d)`"),
+    tgt("sql_list_unsupported", ["LBracket", "a", "Comma", {"fstring": [("lit", "x")]}, "Comma", "b", "RBracket"], "`[a, f'x', b]`: an element without a translation makes the whole list unsupported, it is not dropped"),
     tgt("sql_cast0", ["double", "LParen", "RParen"], "`double()`: a cast of NULL"),
     tgt("sql_list", ["LBracket", "a", "Comma", "b", ("Add", "OrOr"), "@c", ("Comma", "RBracket"), "RBracket"], "`[a, b op c]`"),
     tgt("sql_map", ["LBrace", "$", "Colon", "b", "Comma", "$", "Colon", "d", "Add", "e", "RBrace"], "`{'k': b, 'l': d + e}`"),
